@@ -211,4 +211,21 @@ Section Model.
   (* SkyCoord normalises the longitude into [0, 2 pi) on construction *)
   Definition rses_ap (src_ra src_dec true_ra true_dec reco_ra reco_dec : T) : T * T :=
     rses ap_oracle (ap_wrap360 src_ra) src_dec (ap_wrap360 true_ra) true_dec (ap_wrap360 reco_ra) reco_dec.
+  (* ---------------------------------------------------------------- signal_event_post_sampling_processing *)
+  (* What the loop over the sampled source indices computes, read per event: every
+     event (source index k, true direction, reco direction) is rotated onto
+     source_list[k]; None stands for the IndexError of an index outside the list.
+     The loop / mask / write-back plumbing itself is pinned by the shapev kernel
+     sh_post_sampling_processing and validated by the correspondence. *)
+  Definition ps_event : Type := (nat * (T * T) * (T * T))%type.
+  Definition post_sampling (O : sky_oracle) (srcs : list (T * T)) (evs : list ps_event) : list (option (T * T)) :=
+    map (fun ev => match nth_error srcs (fst (fst ev)) with
+                   | Some s => Some (rses O (fst s) (snd s) (fst (snd (fst ev))) (snd (snd (fst ev))) (fst (snd ev)) (snd (snd ev)))
+                   | None => None
+                   end) evs.
+  Definition post_sampling_ap (srcs : list (T * T)) (evs : list ps_event) : list (option (T * T)) :=
+    map (fun ev => match nth_error srcs (fst (fst ev)) with
+                   | Some s => Some (rses_ap (fst s) (snd s) (fst (snd (fst ev))) (snd (snd (fst ev))) (fst (snd ev)) (snd (snd ev)))
+                   | None => None
+                   end) evs.
 End Model.
